@@ -25,7 +25,11 @@ CLAIMED['C05'] = dict(
         '(universally quantified) and the temporal test, the temporal factor being the set-theoretic one proved in C06 '
         '(shared instant / inclusion over a dense timeline), that either shape lacking dt gives the spatial test alone, and that a '
         'datetime is the zero-length interval. Model tied to _base.py and time.py on every run by the translator (GenEq lemmas for all '
-        'arguments) and by an in-Coq correspondence over all ordered pairs of 15 shape fixtures x dt placements, constructor and set_dt.',
+        'arguments) and by an in-Coq correspondence over all ordered pairs of 15 shape fixtures x dt placements, constructor and set_dt. '
+        'Props/C05b.v (9 theorems, closed) lifts laws of the spatial predicate through the time gate with the order laws of TimeInterval (C06b): '
+        'symmetry of intersects, contains => intersects, transitivity of contains (with the side condition on an untimed middle shape, which is '
+        'shown to be needed), monotonicity under widening the receiver time bounds, disjoint time sets => neither predicate holds, datetime forms = '
+        'zero-length-interval forms; each law is also evaluated as an exact conditional instance on the implementation (400 / 6000 triples).',
    note='Trusted: Coq kernel + vm_compute; tools/translate.py; datetime -> integer microseconds UTC abstraction; harness. '
         'Spatial predicates are abstract in the theorems (C02 decides them). No axioms.',
    technique='Coq proof (composition law + C06 set semantics) + translator tie + in-Coq correspondence',
@@ -123,7 +127,9 @@ CLAIMED['C10'] = dict(
         'depends only on the SET of inputs (permutation and multiplicity invariance), with the one-point / two-point / all-collinear cases characterised exactly; '
         'entry points = hull of the concatenated member vertices. Tied to the code by an in-Coq correspondence through the public multi-shape / collection entry '
         'points on integer and dyadic multi-scale frames (2^0 .. 2^-100, several bases; exactness checked per case), all permutations of small sets, plus an '
-        'exact Fraction oracle of every clause on the implementation output.',
+        'exact Fraction oracle of every clause on the implementation output. DOMAIN: no hull edge spans more than 180 degrees of longitude (ensure_edge_bounds is then the identity: '
+        'Props/C10c.v C10_narrow_edge_unadjusted); outside it the counter-clockwise clause FAILS on the real code - known finding D55 (GeoPolygon reads such an edge as crossing the antimeridian '
+        'and reverses the hull; C10_wide_hull_reversed_refuted on the composed hull + constructor model; replayed on every run, and a wide-set family judges every other clause there).',
    note='Trusted: Coq kernel + vm_compute; HullM mirrors convex_hull (translator tie, DESIGN 9.6, + correspondence); harness exactness guard. IEEE rounding on non-dyadic inputs outside the model. No axioms.',
    technique='Coq proof (stack invariant of the pop loop, orientation lemmas by nia, sorted-dedup uniqueness) + in-Coq multi-scale correspondence + translator tie (convex_hull incl. both monotone-chain loops, callers: 32 GenEq lemmas)',
    ref='5/C10, 9')
